@@ -597,7 +597,7 @@ private:
                                 ++stream_pos;
 
                                 *dst_it++ = this->_palette[ packed_indices >> 4 ];
-                                if( ++i == second )
+                                if( ++i == count )
                                     break;
 
                                 *dst_it++ = this->_palette[ packed_indices & 0x0f ];
